@@ -3,6 +3,9 @@ package main
 import (
 	"bufio"
 	"fmt"
+	"io"
+	"net/http"
+	"net/http/httputil"
 	"regexp"
 	"sort"
 	"strings"
@@ -333,6 +336,36 @@ func (rn *runner) battery(in, mir *rinst, silent bool, frame bool) {
 	for i := range rn.pool.URLs {
 		rn.urlEvent(in, mir, &rn.pool.URLs[i], key, "", false)
 	}
+	for i := range rn.pool.TH {
+		rn.traceHelper(&rn.pool.TH[i])
+	}
+}
+
+// traceHelper hands one request to the bundled mux.Trace helper; the stdlib dump of an
+// identical request is a logged input of the specification.
+func (rn *runner) traceHelper(op *Op) {
+	mk := func() *http.Request {
+		req := mkRequest(op.Method, op.Path, op.Host, op.Hdr)
+		if op.Body != "" {
+			req.Body = io.NopCloser(strings.NewReader(op.Body))
+			req.ContentLength = int64(len(op.Body))
+		}
+		return req
+	}
+	dump, derr := httputil.DumpRequest(mk(), op.Flag)
+	w := newRecW()
+	w.keep = true
+	res, _ := guard(func() { mux.Trace(w, mk(), op.Flag) })
+	w.finish()
+	line := obj("ev", js("tracehelper"), "method", js(op.Method), "path", js(op.Path), "hdr", jmap(op.Hdr), "body", js(op.Body), "flag", jbool(op.Flag),
+		"status", jint(w.status), "ct", js(w.sent.Get("Content-Type")), "out", js(string(w.buf)), "dump", js(string(dump)), "dumpok", jbool(derr == nil), "res", js(res))
+	if !rn.nodedup {
+		if rn.seen["T"+line] {
+			return
+		}
+		rn.seen["T"+line] = true
+	}
+	rn.emit(line)
 }
 
 // urlEvent performs one URL call and records it; rtpath != "" marks a round trip of a dispatched request.
